@@ -348,7 +348,7 @@ func (m *Manager) AddPublicIP(ip net.IP) error {
 
 	// Add to hairpin detection map if enabled
 	if m.hairpinIPs != nil && m.config.EnableHairpin {
-		ipKey := ipToKey(ip4)
+		ipKey := ipToBPF(ip4)
 		val := uint8(1)
 		if err := m.hairpinIPs.Put(&ipKey, &val); err != nil {
 			m.logger.Warn("Failed to add hairpin IP", zap.Error(err))
@@ -486,7 +486,7 @@ func (m *Manager) AllocateNAT(privateIP net.IP) (*Allocation, error) {
 	if m.subscriberNAT != nil {
 		subNAT := SubscriberNAT{
 			Block: PortBlock{
-				PublicIP:      ipToKey(selectedPool.PublicIP),
+				PublicIP:      ipToBPF(selectedPool.PublicIP),
 				PortStart:     portStart,
 				PortEnd:       portEnd,
 				NextPort:      uint32(portStart),
@@ -501,7 +501,8 @@ func (m *Manager) AllocateNAT(privateIP net.IP) (*Allocation, error) {
 			BytesOut:       0,
 			BytesIn:        0,
 		}
-		if err := m.subscriberNAT.Put(&privKey, &subNAT); err != nil {
+		bpfKey := ipToBPF(ip4)
+		if err := m.subscriberNAT.Put(&bpfKey, &subNAT); err != nil {
 			return nil, fmt.Errorf("failed to update eBPF map: %w", err)
 		}
 	}
@@ -550,7 +551,8 @@ func (m *Manager) DeallocateNAT(privateIP net.IP) error {
 
 	// Remove from eBPF map
 	if m.subscriberNAT != nil {
-		if err := m.subscriberNAT.Delete(&privKey); err != nil {
+		bpfKey := ipToBPF(ip4)
+		if err := m.subscriberNAT.Delete(&bpfKey); err != nil {
 			m.logger.Warn("Failed to delete subscriber NAT entry", zap.Error(err))
 		}
 	}
@@ -814,8 +816,8 @@ func (m *Manager) GetEIMMapping(internalIP net.IP, internalPort uint16, protocol
 	}
 
 	key := EIMKey{
-		InternalIP:   ipToKey(internalIP.To4()),
-		InternalPort: internalPort,
+		InternalIP:   ipToBPF(internalIP.To4()),
+		InternalPort: portToBPF(internalPort),
 		Protocol:     protocol,
 	}
 
@@ -844,10 +846,10 @@ func (m *Manager) LookupSession(srcIP, dstIP net.IP, srcPort, dstPort uint16, pr
 	}
 
 	key := natKey{
-		SrcIP:    ipToKey(srcIP.To4()),
-		DstIP:    ipToKey(dstIP.To4()),
-		SrcPort:  srcPort,
-		DstPort:  dstPort,
+		SrcIP:    ipToBPF(srcIP.To4()),
+		DstIP:    ipToBPF(dstIP.To4()),
+		SrcPort:  portToBPF(srcPort),
+		DstPort:  portToBPF(dstPort),
 		Protocol: protocol,
 	}
 
@@ -864,7 +866,34 @@ func (m *Manager) SetLogger(logger *Logger) {
 	m.natLogger = logger
 }
 
-// ipToKey converts an IPv4 address to a uint32 key (network byte order)
+// ipToBPF converts an IPv4 address to the uint32 the eBPF programs hold for it.
+// The programs take addresses straight from the packet (ip->saddr, ip->daddr),
+// i.e. the four address bytes in network order. Map keys and values are
+// marshalled in native byte order, so the integer has to be built natively
+// from the bytes to keep them in that order.
+func ipToBPF(ip net.IP) uint32 {
+	return binary.NativeEndian.Uint32(ip.To4())
+}
+
+// bpfToIP is the inverse of ipToBPF.
+func bpfToIP(v uint32) net.IP {
+	ip := make(net.IP, 4)
+	binary.NativeEndian.PutUint32(ip, v)
+	return ip
+}
+
+// portToBPF converts a port number to the uint16 the eBPF programs hold for it
+// in keys and log records: the two bytes in network order, as in tcp->source.
+// It is its own inverse.
+func portToBPF(port uint16) uint16 {
+	var b [2]byte
+	binary.BigEndian.PutUint16(b[:], port)
+	return binary.NativeEndian.Uint16(b[:])
+}
+
+// ipToKey converts an IPv4 address to the numeric (big-endian) uint32 used for
+// the manager's own bookkeeping and address arithmetic; it is not the encoding
+// of the eBPF maps (see ipToBPF).
 func ipToKey(ip net.IP) uint32 {
 	ip4 := ip.To4()
 	return binary.BigEndian.Uint32(ip4)
